@@ -98,6 +98,16 @@ CHECKS["C16"] = dict(
     engine="tlc+replay",
 )
 
+_PARSER_NOTE = "The grammar is the DSL of the pinned commit (frozen copy); token attributes (which integer types a literal fits, valid float syntax, digit-start identifiers) and value equality between token text and stored value are computed by the driver (Python, exact arithmetic), outside TLA+; IF_DATA content is treated as balanced tokens at this level. Trusts TLC, the hook tokenizer (token stream fed to the specification) and tools/docgen.py / a2ldoc.py."
+CHECKS["C04"] = dict(
+    category="model_checking",
+    text="Grammar.tla holds the frozen A2L 1.7.1 grammar (205 elements, 20 enums) as a TLA+ constant and Parser.tla is the parser as a function of the token sequence, parametric in it (a transcription of the code-generator templates and parser.rs helpers: typed parameters, greedy sequences with rewind, optional/required/repeatable sub-elements, block vs keyword form, version gating, unknown-tag skipping, end-tag check, file-level version look-ahead, severity of every diagnostic site). TLC enumerates the finite case space from the grammar (every element under every version and every single deviation named by the property: 7.7k cases); each case is concretised with distinct tokens, loaded by the real library in strict and non-strict mode, and TLC evaluates Parser.tla on the real token stream: outcome, error class and line, every diagnostic with its line, which token lands in which field, and (table Corresponding) that the deviation produced its diagnostic class; stored values are compared with the token texts by the driver.",
+    design_ref="DESIGN.md §4.1, §4.3, §6 C04",
+    note=_PARSER_NOTE,
+    technique="TLA+ spec (Parser.tla over Grammar.tla) as the oracle; TLC-enumerated case space (MC_ParserCases) concretised and executed on the real loader; outcomes validated by TLC (Trace_Parser)",
+    engine="tlc+replay",
+)
+
 PENDING = "check not built yet in this round; planned per DESIGN.md §6 (no claim made until the TLA+ module and its binding exist)"
 NOT_APPLICABLE = {}
 
